@@ -114,16 +114,24 @@ def bypass_exits(prog, an, rep):
         f, lambda e: 'jira_keys' in src(e) or 'jira_account_url' in src(e)
         or 'jira_email' in src(e), expand='all')]
     conf = []
+    three = {'settings.jira_keys', 'settings.jira_email',
+             'settings.jira_account_url'}
+    seen_settings = set()
     for t in conf_tests:
         conf += c.branch(t, False)
         lv = d.leaves(t.ast, with_control=False)
-        rep.check(lv == {'settings.jira_keys', 'settings.jira_email',
-                         'settings.jira_account_url'} and
+        seen_settings |= lv
+        # one test over the three (all([...])) or one test per setting
+        # (a and b and c): each falsy outcome is "not configured"
+        rep.check(lv <= three and (lv == three) ==
                   src(t.matched).startswith('all('), 'C11.DEP.not-configured',
                   f.qname + ': "Jira not configured" = any of the three '
                   'settings empty', f.where(t),
                   '"not configured" test is %s' % src(t.ast),
                   detail=src(t.ast))
+    rep.check(seen_settings == three, 'C11.DEP.not-configured', f.qname +
+              ': the three Jira settings are all required', f.where(),
+              '"not configured" looks at %s' % sorted(seen_settings))
     ref = an.branch_nodes(f, _has_call(an, f, Spec.func(
         J + '.check_issue_reference')), False)
     rep.check(len(byp) > 0 and len(prefix) > 0 and len(conf) > 0 and
